@@ -1,9 +1,11 @@
 import Bpmn.Driver.Main
 import Bpmn.Driver.C11
+import Bpmn.Driver.C11Match
 open Bpmn.Driver
 
 def main : IO UInt32 :=
   runDriver (fun family params lines =>
     match family with
     | "c11" => C11.check params lines
+    | "c11match" => C11Match.check params lines
     | _ => { bad := [s!"unknown family {family}"] })
